@@ -561,3 +561,22 @@ package value
 //@   property C08
 //@   option constructs-lazily
 //@   ensures[a-new-lazy-list] result1 == nil ==> result0 != nil && fresh(result0) && !result0.itemsPresent
+
+// ---------------------------------------------------------------- C05: the comparison callback of order / orderRev
+// sort.Sort (library) calls Less with indices inside the slice; Less must not hand a missing value (a pick that failed)
+// to the comparison function.
+//@ predicate sortableOK(s any) = s != nil && validStack(s.st) && slotsNonNilV(s.st) && s.pickFunc.Func != nil && fs(s.pickFunc.Func) == 1 && cl(s.pickFunc.Func) == 0 && s.less != nil && ref(s.items) != ref(s.st.storage.data)
+//@ predicate slotsNonNilV(st any) = forall i in 0..st.size :: nonnil(st.storage.data[st.offs+i])
+
+//@ func (s *Sortable) pick
+//@   property C05
+//@   safety C05
+//@   requires sortableOK(s) && 0 <= i && i < len(s.items)
+//@   ensures[value-on-success] result1 ==> nonnil(result0)
+//@   ensures[still-usable] sortableOK(s) && s.st.size == old(s.st.size) && s.st.offs == old(s.st.offs) && len(s.items) == old(len(s.items)) && s.items == old(s.items)
+//@   assigns s.err, any List.items, any List.itemsPresent, any List.iterable, any funcGen.stackStorage[Value].data, any []Value, s.st.size
+
+//@ func (s *Sortable) Less
+//@   property C05
+//@   safety C05
+//@   requires sortableOK(s) && 0 <= i && i < len(s.items) && 0 <= j && j < len(s.items)
